@@ -7,6 +7,7 @@ import (
 	"fmt"
 	"os"
 	"os/exec"
+	"reflect"
 	"sort"
 	"strings"
 	"sync"
@@ -72,6 +73,7 @@ func probeDigest() string {
 			}
 		}
 	}
+	parts = append(parts, "reachable:"+sha([]byte(reachableDigest())))
 	parts = append(parts, fmt.Sprint("names:", names.FromUnicode('A'), names.FromUnicode(0x1F600), string(names.ToUnicode("Aacute_f_i.alt", false)),
 		string(names.ToUnicode("a1", true)), names.IsValid("x.y")))
 	return sha([]byte(strings.Join(parts, "\n")))
@@ -102,6 +104,11 @@ func isolateCmd(args []string) error {
 			a := ps.NewInterpreter()
 			a.MaxOps = 100000
 			for _, h := range v.Hist {
+				if h == "mutate-all-reachable" {
+					mutateAllReachable(a)
+					sum.PerOp[h]++
+					continue
+				}
 				prog, ok := hostilePrograms[h]
 				if !ok {
 					return fmt.Errorf("unknown hostile action %q", h)
@@ -213,4 +220,121 @@ func raceStress(args []string) error {
 	}
 	sort.Strings(unstable)
 	return emit(map[string]any{"events": nEvents, "goroutines": ng, "rounds": rounds, "keys": len(got), "unstable": unstable})
+}
+
+// operatorNames lists the names that systemdict (and the CIDInit procedure set) bind
+// to operators in a fresh instance.
+func operatorNames() []string {
+	intp := ps.NewInterpreter()
+	var out []string
+	for k, v := range intp.SystemDict {
+		switch v.(type) {
+		case ps.Dict, ps.Array, ps.Procedure, ps.String, ps.Integer, ps.Real, ps.Boolean, ps.Name:
+		default:
+			out = append(out, string(k))
+		}
+	}
+	sort.Strings(out)
+	return out
+}
+
+func roots(intp *ps.Interpreter) []ps.Object {
+	return []ps.Object{intp.SystemDict, intp.InternalDict, intp.UserDict, intp.ErrorDict, intp.Resources, intp.FontDirectory}
+}
+
+// mutateDeep overwrites every array element, string byte and dictionary entry
+// reachable from o (children first).
+func mutateDeep(o ps.Object, seen map[uintptr]bool, depth int) {
+	if depth > 12 {
+		return
+	}
+	visit := func(p uintptr) bool {
+		if p == 0 || seen[p] {
+			return false
+		}
+		seen[p] = true
+		return true
+	}
+	switch x := o.(type) {
+	case ps.Dict:
+		if !visit(reflect.ValueOf(x).Pointer()) {
+			return
+		}
+		for k, v := range x {
+			mutateDeep(v, seen, depth+1)
+			x[k] = ps.Name("hacked")
+		}
+		x["hacked-key"] = ps.Integer(-1)
+	case ps.Array:
+		if len(x) == 0 || !visit(reflect.ValueOf(x).Pointer()) {
+			return
+		}
+		for i, v := range x {
+			mutateDeep(v, seen, depth+1)
+			x[i] = ps.Name("hacked")
+		}
+	case ps.Procedure:
+		if len(x) == 0 || !visit(reflect.ValueOf(x).Pointer()) {
+			return
+		}
+		for i, v := range x {
+			mutateDeep(v, seen, depth+1)
+			x[i] = ps.Name("hacked")
+		}
+	case ps.String:
+		for i := range x {
+			x[i] = 'X'
+		}
+	}
+}
+
+// mutateAllReachable is the most hostile program there is: it overwrites everything an
+// instance can reach - the values every operator hands out on an empty stack (matrix,
+// currentdict, ...), and every container reachable from the instance's dictionaries.
+func mutateAllReachable(a *ps.Interpreter) {
+	seen := map[uintptr]bool{}
+	for _, name := range operatorNames() {
+		func() {
+			defer func() { recover() }()
+			a.Stack = a.Stack[:0]
+			a.MaxOps = a.NumOps + 1000
+			a.ExecuteString(name)
+			for _, o := range a.Stack {
+				mutateDeep(o, seen, 0)
+			}
+			a.Stack = a.Stack[:0]
+		}()
+	}
+	for _, r := range roots(a) {
+		mutateDeep(r, seen, 0)
+	}
+}
+
+// reachableDigest renders what a fresh instance can reach: its dictionaries, and what
+// each operator leaves on an empty stack (each on an instance of its own).
+func reachableDigest() string {
+	var sb strings.Builder
+	b := ps.NewInterpreter()
+	for _, r := range roots(b) {
+		sb.WriteString(corpus.ObjDigest(r))
+		sb.WriteByte('\n')
+	}
+	for _, name := range operatorNames() {
+		func() {
+			defer func() {
+				if r := recover(); r != nil {
+					fmt.Fprintf(&sb, "%s: panic %v\n", name, r)
+				}
+			}()
+			c := ps.NewInterpreter()
+			c.MaxOps = 1000
+			err := c.ExecuteString(name)
+			fmt.Fprintf(&sb, "%s: %v [", name, err)
+			for _, o := range c.Stack {
+				sb.WriteString(corpus.ObjDigest(o) + " ")
+			}
+			sb.WriteString("]\n")
+		}()
+	}
+	return sb.String()
 }
